@@ -312,6 +312,13 @@ def _entry(ctx, p, rng):
         calls.append(('det', algopy.det, np.linalg.det, [('u', Md)], {}))
         calls.append(('solve', algopy.solve, np.linalg.solve, [('u', Md), U((n, 2))], {}))
         calls.append(('solve:col', algopy.solve, np.linalg.solve, [('u', Md), U((n, 1))], {}))
+    # operators at operands that produce exact zeros: the sign of a zero is part of NumPy's result (1/(c - x) is +inf or -inf)
+    zd = gen.series_data(rng, D, P, (6,), 'R', 'random', False, 0.5)
+    zd[0] = np.array([2.5, -2.5, 0.0, -0.0, 1.0, -1.0])
+    for nm_, f_ in [('c-x', lambda a: 2.5 - a), ('x-c', lambda a: a - 2.5), ('x+c', lambda a: a + 2.5), ('c+x', lambda a: -2.5 + a), ('neg', lambda a: -a),
+                    ('x*0', lambda a: a * 0.0), ('0*x', lambda a: -0.0 * a), ('x/c', lambda a: a / -1.0), ('arr-x', lambda a: np.array([2.5, -2.5, 0.0, 0.0, 1.0, 1.0]) - a),
+                    ('x-arr', lambda a: a - np.array([2.5, -2.5, 0.0, 0.0, 1.0, 1.0])), ('x-x', lambda a: a - a), ('x*x', lambda a: a * a), ('npc-x', lambda a: np.float64(2.5) - a)]:
+        calls.append(('signed-zero:' + nm_, f_, f_, [('u', zd)], {}))
     for (name, fa, fn, spec, kw) in calls:
         args = []
         for kind, v in spec:
@@ -349,6 +356,10 @@ def _entry(ctx, p, rng):
                 bad = pp; break
         if bad is not None:
             ctx.violation('entry:%s:value' % key, dict(info, direction=bad)); continue
+        if key == 'signed-zero':
+            sb = next((pp for pp in range(P) if not np.array_equal(np.signbit(r.data[0, pp])[refs[pp] == 0], np.signbit(refs[pp])[refs[pp] == 0])), None)
+            if sb is not None:
+                ctx.violation('entry:signed-zero:%s' % name.split(':')[1], dict(info, direction=sb, got=repr(r.data[0, sb])[:120], want=repr(refs[sb])[:120])); continue
         ctx.ok('entry', ('entry', name, wrap, tuple(tuple(x) if isinstance(x, list) else x for x in info['shapes']), repr(kw), D, P))
 
 
